@@ -304,24 +304,31 @@ class BackendRegistryState:
 class BackendRegistry:
     def __init__(self):
         self.state = BackendRegistryState()
-        self.use_lock = threading.Lock()
+        # Every method replaces self.state with an updated copy -> all of them have to hold the lock, otherwise a concurrent
+        # lookup can overwrite (and thereby lose) a registration or a 'with backend:' entry made by another thread.
+        self.use_lock = threading.RLock()
 
     def register(self, backend):
-        self.state = self.state.register(backend)
+        with self.use_lock:
+            self.state = self.state.register(backend)
 
     def register_on_import(self, module_name, backend_name, backend_factory):
-        self.state = self.state.register_on_import(module_name, backend_name, backend_factory)
+        with self.use_lock:
+            self.state = self.state.register_on_import(module_name, backend_name, backend_factory)
 
     def get_by_tensors(self, tensor):
-        self.state, backends = self.state.get_by_tensors(tensor)
+        with self.use_lock:
+            self.state, backends = self.state.get_by_tensors(tensor)
         return backends
 
     def get_by_name(self, name):
-        self.state, backend = self.state.get_by_name(name)
+        with self.use_lock:
+            self.state, backend = self.state.get_by_name(name)
         return backend
 
     def get(self, backend=None, tensors=None):
-        self.state, backend = self.state.get(backend, tensors)
+        with self.use_lock:
+            self.state, backend = self.state.get(backend, tensors)
         return backend
 
     def enter(self, backend):
